@@ -415,7 +415,7 @@ def split_recordings(path, reset_marker='"a":"Reset"'):
     return groups
 
 
-def run_player(player, scratch, name, script_lines, shards, out_name="hist.ndjson", args_fn=None, timeout=1800, per_script=True, extra_args=()):
+def run_player(player, scratch, name, script_lines, shards, out_name="hist.ndjson", args_fn=None, timeout=1800, per_script=True, extra_args=(), lines_per_script=1):
     """Run a player binary on script lines (already serialised), sharded round-robin.
     Header lines (confdefs) are given to every shard. Returns list of (script_line, recording_lines)."""
     headers = [s for s in script_lines if '"confdef"' in s]
@@ -439,7 +439,7 @@ def run_player(player, scratch, name, script_lines, shards, out_name="hist.ndjso
         groups = split_recordings(op)
         if not per_script:
             # one recording per shard: [Reset, line per script ...]
-            if len(groups) != 1 or len(groups[0]) not in (len(ch) + 1, len(ch) + 2):   # + a trailing summary line
+            if len(groups) != 1 or len(groups[0]) not in (lines_per_script * len(ch) + 1, lines_per_script * len(ch) + 2):   # + a trailing summary line
                 raise Inconclusive("player %s produced %d lines for %d scripts" % (name, sum(len(g) for g in groups), len(ch)))
             return [(ch, groups[0])]
         if len(groups) != len(ch):
